@@ -51,6 +51,7 @@ func main() {
 	updateBaseline := flag.Bool("update-baseline", false, "write the baseline obligation list")
 	noEvidence := flag.Bool("no-evidence", false, "do not write evidence")
 	verbose := flag.Bool("v", false, "verbose")
+	workFlag := flag.String("workdir", "", "scratch directory for SMT files (default <verif>/work/<prop>)")
 	flag.Parse()
 	if t := os.Getenv("VERIF_TIER"); t != "" {
 		*tier = t
@@ -212,6 +213,9 @@ func main() {
 		obls = append(obls, eng.obls[n])
 	}
 	workDir := filepath.Join(*verif, "work", *prop)
+	if *workFlag != "" {
+		workDir = *workFlag
+	}
 	os.RemoveAll(workDir)
 	timeout := 10
 	all := false
